@@ -122,6 +122,7 @@ let verdict case impl =
          from the model (result, number of attempts) -> `diff` *)
       match obs, script with
       | "error" :: why, _ -> "ok not-run " ^ String.concat " " why
+      | "replay-error" :: why, _ -> "diff not-run-in-replay " ^ String.concat " " why
       | [res; keys], [ps] ->
         let st = parse_state (String.sub cons 2 (String.length cons - 2)) in
         let ok = parse_keys keys in
@@ -132,12 +133,20 @@ let verdict case impl =
           | FCompleted (_, _) -> "pv"
           | FIgnored _ -> "p-:N"
           | FFailed e -> "e" ^ hex_of_n e in
+        (* the nodes of the attempts: a fresh plan, same-target retries stay, next-target
+           retries move to an unused node (C07_single_page_targets) *)
+        let nodes_fine = match parse_nodes keys with
+          | None -> false
+          | Some l -> l = [] || follows ps.ps_faults None [] (List.map snd l) in
         if List.exists (fun (_, s) -> s <> st) ok then "viol single-page request without the caller's state spec=" ^ show_state st
+        else if parse_nodes keys = None then "error bad-keys"
+        else if res = mres && List.length ok = List.length mkeys && not nodes_fine then "diff coordinator-stability model=" ^ mres
         else if res = mres && List.length ok = List.length mkeys then "ok"
         else "diff model=" ^ mres ^ " " ^ show_keys mkeys
       | _ -> "error bad-single-case"
     end else
     (match obs with
+     | "replay-error" :: why -> "diff not-run-in-replay " ^ String.concat " " why
      | "error" :: why ->
        (* the case did not run (environment: group failed, statement could not be prepared, ...):
           counted by checks/c07.py, which fails the check above a small cap *)
@@ -167,26 +176,49 @@ let verdict case impl =
           stability (C07_coordinator_stability: every model run satisfies coord_ok).  Not part of
           the property statement: a mismatch is `diff`.  After an early drop the last page's
           requests may be cut short by the snapshot: that group is not judged. *)
+       let bad_keys = (parse_nodes keys = None) in
        let coord_fine =
          if m = MConn then true else
            match parse_nodes keys with
-           | None -> true
+           | None -> false
            | Some l ->
              let g = group_nodes l in
-             let g = if as_drop then (match List.rev g with [] -> [] | _ :: r -> List.rev r) else g in
-             coord_ok None script g in
+             if not as_drop then coord_ok None script g
+             else begin
+               (* all complete groups by coord_ok; of the last (possibly cut) group only where it
+                  started: at the node that answered the page before *)
+               match List.rev g with
+               | [] -> true
+               | lastg :: revfull ->
+                 let full = List.rev revfull in
+                 coord_ok None script full &&
+                 (match List.rev full, lastg, List.nth_opt script (List.length full) with
+                  | prev :: _, x :: _, Some ps when (match ps.ps_faults with FConnFail :: _ -> false | _ -> true) ->
+                    fits (last_opt prev) [] x
+                  | _ -> true)
+             end in
        let acc = accepts script in
+       if bad_keys then "error bad-keys" else
        if known then begin
          (* inside class O1 the acceptor has no soundness theorem: the property predicate itself
             decides (an early drop may end before the point where model and property part) *)
-         if prop && acc then "ok"
+         if prop && acc && not coord_fine then "diff coordinator-stability model=" ^ model_string m script
+         else if prop && acc then "ok"
          else if prop then "diff class-O1-script-but-error-surfaced model=" ^ model_string m script
+         else if acc && not coord_fine then "viol spec=" ^ show_expected exp_strict ^ " (also: coordinator-stability)"
          else if acc then "viol class=ignore-write-error-silent-end spec=" ^ show_expected exp_strict
          else "viol spec=" ^ show_expected exp_strict
        end
        else if acc && not coord_fine then "diff coordinator-stability model=" ^ model_string m script
        else if acc then "ok"
-       else if (not as_drop) && has_t && earlier_timeouts () then "ok early-timeout"
+       else if (not as_drop) && has_t && earlier_timeouts () then
+         (* the nodes are judged against an environment that explains the observation *)
+         (let coord_sc sc = m = MConn || (match parse_nodes keys with
+              | None -> false | Some l -> coord_ok None sc (group_nodes l)) in
+          if List.exists (fun sc -> accept_full m sc oi ok && ctor_failed = ctor_fails m sc && coord_sc sc)
+              (early_timeouts script)
+          then "ok early-timeout"
+          else "diff coordinator-stability (early-timeout) model=" ^ model_string m script)
        else if not prop then "viol spec=" ^ show_expected exp_strict
        else "diff model=" ^ model_string m script
      | _ -> "error bad-observation")
